@@ -155,35 +155,46 @@ static std::string wna_samp(Toks& t) {
     return o.str();
 }
 
+// k successive motion calls on ONE object, batch sizes chosen by the caller (non-monotone)
 static std::string wna_motion(Toks& t) {
     long d = t.nat(); double T = t.dbl(), q = t.dbl(); unsigned int seed = (unsigned int)t.nat();
-    long N = t.nat(); bool skip = t.flag(), exo = t.flag(), exoskip = t.flag();
+    bool skip = t.flag(), exo = t.flag(), exoskip = t.flag();
     WNA m(dimOf(d), T, q, seed); Twin tw(seed);
     long n = m.getStateDescription().total_size();
-    MatrixXd X = t.mat(n, N), out = t.mat(n, N);
     if (exo) { MatrixXd G = t.mat(n, n); VectorXd g = t.vec(n); m.add_exogenous_model(std::unique_ptr<ExogenousModel>(new HExo(G, g))); }
+    long k = t.nat();
+    std::vector<MatrixXd> Xs, outs;
+    for (long b = 0; b < k; ++b) { long N = t.nat(); Xs.push_back(t.mat(n, N)); outs.push_back(t.mat(n, N)); }
     t.done();
     if (skip) m.skip("state", true);
     if (exo && exoskip) m.skip("exogenous", true);
-    MatrixXd X0 = X;
-    m.motion(X, out);
-    MatrixXd Z = tw.mat(n, N);
+    Out o; o.s("ok"); o.n(k);
+    for (long b = 0; b < k; ++b) {
+        MatrixXd X0 = Xs[b];
+        m.motion(Xs[b], outs[b]);
+        MatrixXd Z = tw.mat(n, Xs[b].cols());
+        outShaped(o, outs[b]); outShaped(o, Z); o.s(vh::same_bits(Xs[b], X0) ? "in-same" : "in-modified");
+    }
     // the next call continues the same stream
     MatrixXd Ynext = m.getNoiseSample(1); MatrixXd Znext = tw.mat(n, 1);
-    Out o; o.s("ok"); outShaped(o, out); outShaped(o, Z); o.s(vh::same_bits(X, X0) ? "in-same" : "in-modified");
     outShaped(o, Ynext); outShaped(o, Znext);
     probeWna(o, d, T, q, n);
     return o.str();
 }
 
+// k successive getTransitionProbability calls on ONE object with different batch sizes
 static std::string wna_trans(Toks& t) {
-    long d = t.nat(); double T = t.dbl(), q = t.dbl(); long N = t.nat();
+    long d = t.nat(); double T = t.dbl(), q = t.dbl(); long k = t.nat();
     WNA m(dimOf(d), T, q);
     long n = m.getStateDescription().total_size();
-    MatrixXd prev = t.mat(n, N), cur = t.mat(n, N); t.done();
-    VectorXd p = m.getTransitionProbability(prev, cur);
-    Out o; o.s("ok"); o.n(p.size()); o.m(p);
-    outShaped(o, m.getStateTransitionMatrix()); outShaped(o, m.getNoiseCovarianceMatrix());
+    std::vector<MatrixXd> prevs, curs;
+    for (long b = 0; b < k; ++b) { long N = t.nat(); prevs.push_back(t.mat(n, N)); curs.push_back(t.mat(n, N)); }
+    t.done();
+    Out o; o.s("ok"); o.n(k);
+    for (long b = 0; b < k; ++b) {
+        VectorXd p = m.getTransitionProbability(prevs[b], curs[b]);
+        o.n(p.size()); o.m(p);
+    }
     return o.str();
 }
 
@@ -367,6 +378,12 @@ static std::string grid(Toks& t) {
     Out o; o.s("ok"); o.s(ok ? "T" : "F");
     MatrixXd s2 = ps.state(); VectorXd w2 = ps.weight();
     outShaped(o, s2); o.n(w2.size()); o.m(w2);
+    // a second call of the same object on an identical set must do the same
+    ParticleSet again(N, R);
+    again.state() = st; again.weight() = w;
+    bool ok2 = g->initialize(again);
+    MatrixXd s3 = again.state(); MatrixXd w3 = again.weight(), w2m = w2;
+    o.s((ok2 == ok && vh::same_bits(s2, s3) && vh::same_bits(w2m, w3)) ? "again-same" : "again-differs");
     return o.str();
 }
 
